@@ -35,6 +35,9 @@ func (p *PropertyPlan) addSource(name, src string, tier string) error {
 	}
 	dir := m[1]
 	for _, d := range dumpLineRe.FindAllStringSubmatch(src, -1) {
+		if d[1] == "." {
+			d[1] = "" // the module's root package
+		}
 		found := false
 		for _, x := range p.DumpDirs {
 			if x == d[1] {
